@@ -59,7 +59,10 @@ func reflectMap(v interface{}) (reflect.Value, bool) {
 		return rv, false
 	}
 	rt := rv.Type()
-	for rv.Kind() == reflect.Interface || rv.Kind() == reflect.Pointer {
+	for n := 0; rv.Kind() == reflect.Interface || rv.Kind() == reflect.Pointer; n++ {
+		if n > maxLevel {
+			return rv, false
+		}
 		rv = rv.Elem()
 		// 指针/接口背后是 nil 时 rv 无效, 交给后续的 TypeOf/ValOf 报错, 而不是在这里 panic
 		if !rv.IsValid() {
